@@ -131,7 +131,7 @@ theorem gen_newton (sqrt : K → K) (sh : Shape K) (P1 S : V3 K) (sj : K) :
 /-- structural facts read off the AST of the current source -/
 theorem gen_structure :
     Generated.C19.multiDotIsRowwiseDot = true ∧ Generated.C19.refractIndicesThreaded = true ∧
-    Generated.C19.conicUsesSagDerAndZeroAzimuthal = true := by decide
+    Generated.C19.conicUsesSagDerAndZeroAzimuthal = true ∧ Generated.C19.newtonStartsOnVertexPlane = true := by decide
 
 /-! ## reflection -/
 
@@ -573,17 +573,35 @@ theorem vertex_plane (P0 S : V3 K) (hm : S.z ≠ 0) : (Generated.C19.toVertexPla
   field_simp
   ring
 
-/-- the ONLY statement made about the solver: if the Newton iteration stops (`|s_{j+1} − s_j| < ε`) then the
+/-- the ONLY statement made about the solver: if the Newton iteration stops (`|s_{j+1} − s_j| < ε · max(1, |P_j|_∞)`) then the
 residual `F = Z_j − sag(X_j, Y_j)` at the point `P_j = P1 + s_j S` it returns (the point BEFORE the last update) satisfies
-`|F| < ε · |F'|`, `F' = S·r`, in exact arithmetic.  Convergence itself, the per-ray masking and rounding are NOT proved. -/
+`|F| < ε · max(1, |P_j|_∞) · |F'|`, `F' = S·r`, in exact arithmetic; the generated scale is the model's and is `≥ 1`.
+Convergence itself, the per-ray masking and rounding are NOT proved. -/
 theorem newton_postcondition (P1 S r : V3 K) (sj sag eps : K)
     (hFp : Generated.C19.newtonFp abs P1 S sj sag r ≠ 0)
-    (hstop : Generated.C19.newtonDelta abs P1 S sj sag r < eps) :
-    |(Generated.C19.newtonPoint abs P1 S sj sag r).z - sag| < eps * |V3.dot S r| := by
-  simp only [Generated.C19.newtonFp, Generated.C19.newtonDelta, Generated.C19.newtonPoint] at *
-  have hpos : 0 < |V3.dot S r| := abs_pos.mpr hFp
-  rw [sub_sub_cancel_left, abs_neg, abs_div, div_lt_iff₀ hpos] at hstop
-  exact hstop
+    (hstop : Generated.C19.newtonDelta abs P1 S sj sag r <
+      eps * Generated.C19.newtonScale abs max (Generated.C19.newtonPoint abs P1 S sj sag r)) :
+    let Pj := Generated.C19.newtonPoint abs P1 S sj sag r
+    |Pj.z - sag| < eps * Generated.C19.newtonScale abs max Pj * |V3.dot S r| ∧
+    Generated.C19.newtonScale abs max Pj = newtonScale ltK Pj ∧ 1 ≤ Generated.C19.newtonScale abs max Pj := by
+  intro Pj
+  refine ⟨?_, ?_, ?_⟩
+  · simp only [Generated.C19.newtonFp, Generated.C19.newtonDelta] at hFp hstop
+    have hpos : 0 < |V3.dot S r| := abs_pos.mpr hFp
+    rw [sub_sub_cancel_left, abs_neg, abs_div, div_lt_iff₀ hpos] at hstop
+    simpa only [Pj, Generated.C19.newtonPoint] using hstop
+  · simp only [Generated.C19.newtonScale, newtonScale, ltK, decide_eq_true_eq]
+    have habs : ∀ v : K, (if v < 0 then -v else v) = |v| := by
+      intro v; split_ifs with h
+      · exact (abs_of_neg h).symm
+      · exact (abs_of_nonneg (not_lt.mp h)).symm
+    have hmax : ∀ a b : K, (if a < b then b else a) = max a b := by
+      intro a b; split_ifs with h
+      · exact (max_eq_right h.le).symm
+      · exact (max_eq_left (not_lt.mp h)).symm
+    simp only [habs, hmax]
+  · simp only [Generated.C19.newtonScale]
+    exact le_max_left _ _
 
 /-! ## non-vacuity: the hypotheses are met by the real square root and by concrete rays -/
 
